@@ -45,7 +45,8 @@ def warm_start(
     pstart = f.variables["particle_count"][:-1].sum()
     pcount = f.variables["particle_count"][-1]
     pend = pstart + pcount
-    pid_max = np.max(f.variables["pid"][:]) + 1
+    pid = f.variables["pid"][:]
+    pid_max = np.max(pid) + 1 if len(pid) > 0 else 0
 
     logger.info("antall partikler = %s", pcount)
 
